@@ -46,6 +46,10 @@ CLAIMS = {
         text="Unbounded ARQ invariant (inv_reachable) and exactly_once_in_order / final_generation_delivers_all proved by induction over arbitrary event schedules on an executable model of Outbound/Inbound/Manager.got_record; tied to two real Managers with fake L2 connections by per-step state comparison.",
         note="Modelled not verified: L2 as an authenticated FIFO of whole records (C12), one connection at a time (C11), Twisted producer contract.",
         tech="Lean 4 proof (invariant by induction over schedules) + differential correspondence"),
+    "C11": dict(
+        text="Two-sided control model over the generated Manager/Connector/DCP/TrafficTimer tables (both Managers, current Connectors, protocol ends, per-side eventual queues, FIFO mailbox channels, link slots): kernel-only roles_agree / roles_equal_raise, dilate_msgs_in_order (induction over arrival orders), 19 call skeletons; certificate-based (5.1e4 reachable states x 24 events, both side orderings) at_most_one_selected, follower_only_confirmed, roles_in_system, no_undeclared_input_partial, reconverge_no_trap (backward-fixpoint certificate); witness that a KCM on a stale inbound link hits a stopped Connector; tied to two REAL Managers with real Connector and DilatedConnectionProtocol objects over an in-memory network with per-step state comparison.",
+        note="Certificates evaluated with native_decide in WV.Proofs.C11Cert (Lean compiler trusted for those three evaluations; reported per theorem). Bounds of the abstraction (not of the runs): at most 2 links exist at once (3 explored by the compiled search only), the network may drop anything except the last candidate of the newest generation, versions before dilate messages, no Manager.stop (C17), honest peers, timers not advanced (signal_reconnect called directly), no relay/Tor. ToyNoise instead of Noise.",
+        tech="Lean 4: finite certificates (native_decide) + kernel-checked lifting and data inductions; generated tables; per-step differential correspondence"),
     "C12": dict(
         text="25 Lean theorems (be4/record round-trips, multi-packet seal/open for every length, framer chunking invariance with fuel sufficiency, prologue/relay rejection, unkeyed input never reaches the manager, end-to-end delivery for every record list and chunking) over a model built on the generated _Framer/_Record/DilatedConnectionProtocol tables; tied to the real classes by differential runs.",
         note="Modelled not verified: Noise (ideal nonce-indexed AEAD interface; noiseprotocol is not installed, toy AEAD in the harness), UTF-8 validity predicate, Twisted dropping a connection when dataReceived raises.",
@@ -63,8 +67,8 @@ CLAIMS = {
         note="Modelled not verified: XSalsa20-Poly1305 (ideal AEAD), Twisted calling connectionLost after loseConnection; handshake states belong to C07; consumer attach mid-stream / expected=0 only by correspondence.",
         tech="Lean 4 proof (induction over chunkings and record lists) + generated skeletons/constants + differential correspondence on real ciphertext"),
     "C07": dict(
-        text="14 Lean theorems over arbitrary event lists and any number of connections: go_only_after_handshake, sender_at_most_one_go, nevermind_only_loser, receiver_only_after_go, selected_holds_key, handshake_prefix_exact_partial, rejected_is_inert, only_one_fires_once_partial; _dataReceived arm order, wire literals and the 2*TIMEOUT deadline are generated and checked; tied to real TransitSender/TransitReceiver.connect() with fake endpoints and task.Clock.",
-        note="Partial: liveness half of handshake_prefix_exact, the deadline theorem, 'cancels the rest' and same_link are stated as defs and checked only by the oracle on the real code. Assumed: HKDF distinctness of handshake strings, Twisted Deferred/Clock semantics, nothing delivered after loseConnection.",
+        text="14 Lean theorems over arbitrary event lists and any number of connections: go_only_after_handshake, sender_at_most_one_go, nevermind_only_loser, receiver_only_after_go, selected_holds_key, handshake_accepts_iff (accepts iff the expected string is a prefix, all chunkings), rejected_is_inert, only_one_fires_once_partial, deadline (connect() has completed once the clock reaches start + 2*TIMEOUT), cancels_the_rest / contenders_all_done; _dataReceived arm order, wire literals and the 2*TIMEOUT deadline are generated and checked; tied to real TransitSender/TransitReceiver.connect() with fake endpoints and task.Clock.",
+        note="Partial: same_link (two-sided) is not expressible in the one-sided model; it and 'at most one selected on the receiver' are checked by the oracle on the real code. Assumed: HKDF distinctness of handshake strings, Twisted Deferred/Clock semantics, nothing delivered after loseConnection.",
         tech="Lean 4 proof (invariants over event lists) + generated dispatch order/constants + differential correspondence"),
     "C08": dict(
         text="closed_at_most_once, silent_after_closed, verdict_correct, resources_freed_partial for every run of the closed client x environment system (finite certificate over the generated tables lifted by induction), close_always_possible as a kernel-proved-sound backward-fixpoint certificate (no trap after close()), table lemmas by decide; per-step correspondence with the real client; the oracle inspects the REAL server tables when `closed` is notified. One known finding (allocation in flight leaks the allocated nameplate) with a Lean witness theorem.",
